@@ -310,7 +310,7 @@ func (c35) Gen(seed int64, tier string, emit func(any)) {
 	r := rand.New(rand.NewSource(seed))
 	n := 400
 	if tier == "thorough" {
-		n = 8000
+		n = 3000
 	}
 	for i := 0; i < n; i++ {
 		b := c35RandBytes(r)
